@@ -60,8 +60,9 @@ Step(a) ==
   /\ post' = IF over THEN post + 1 ELSE post
   /\ hist' = IF over THEN hist ELSE hist \cup Started(s, a)
 
-Next == \E a \in Actions : Step(a)
-NextLegal == \E a \in Actions : Legal(s, a) /\ Step(a)        \* mask-respecting play only
+MayStep == over => post < Extra                               \* at most Extra steps after the end
+Next == MayStep /\ \E a \in Actions : Step(a)
+NextLegal == MayStep /\ \E a \in Actions : Legal(s, a) /\ Step(a)        \* mask-respecting play only
 Spec == Init /\ [][Next]_vars
 SpecLegal == Init /\ [][NextLegal]_vars
 
